@@ -325,6 +325,11 @@ func (c *Channel) proposeNewSession(sid [32]byte, newS *Session) (ret *Session) 
 func (c *Channel) onReadySession(now time.Time) error {
 	se := c.sessions[2]
 	sessRemote := se.Session.RemoteKey()
+	// responder sessions were checked in newResp; an initiator only learns the key here.
+	if err := c.checkKey(&sessRemote); err != nil {
+		c.setNext(sessionEntry{})
+		return err
+	}
 	if !c.remoteKey.IsZero() && !x509.EqualPublicKeys(&c.remoteKey, &sessRemote) {
 		c.setNext(sessionEntry{})
 		return errors.New("session negotiated with wrong peer")
